@@ -7,7 +7,7 @@ from . import c18
 
 META = {
     "rule": "operations {generic connected message, single read, multi-service read of 2 and of many, fragmented read, single write, multi "
-    "write, fragmented write, bit write, merged bit writes, tag-list upload, SLC read, SLC write}; each operation is executed with the "
+    "write, fragmented write, bit write, merged bit writes, tag-list upload, a redundant open() on the open driver, SLC read, SLC write}; each operation is executed with the "
     "connection's counter at EVERY phase 1..65535 (quick: every phase for the cheap operations, the window of 96 phases around the "
     "wrap for the others; a bitmap of visited (operation, phase) pairs proves the coverage), the target records the sequence count of "
     "every connected message. Oracle: the target's class-3 duplicate detector never fires (consecutive messages on a connection "
@@ -67,11 +67,12 @@ def operations(d, kind):
         "bitwrite": lambda: d.write("plain.3", True),
         "bitmerge": lambda: d.write(("plain.3", True), ("plain.4", False), ("plain2.0", True), ("plain3", 5)),
         "upload": lambda: d.get_tag_list(),
+        "redundant_open": lambda: d.open(),  # open() on an already open driver re-initialises it over the same connection
     }
 
 
 KIND_OF = {"generic": "cip", "slc_read": "slc", "slc_write": "slc"}
-ALL_OPS = ["generic", "read1", "read2", "readmany", "readfrag", "write1", "write2", "writefrag", "bitwrite", "bitmerge", "upload", "slc_read", "slc_write"]
+ALL_OPS = ["generic", "read1", "read2", "readmany", "readfrag", "write1", "write2", "writefrag", "bitwrite", "bitmerge", "upload", "redundant_open", "slc_read", "slc_write"]
 
 
 def conn_of(t):
@@ -216,7 +217,7 @@ def run_shard(shard, tier, seed):
             for a in names:
                 for b in names:
                     for nm in (a, b):
-                        if nm in ("upload", "readmany") and lap % 3:
+                        if nm in ("upload", "readmany", "redundant_open") and lap % 3:
                             continue
                         w.io_budget = w.io_total + 20000
                         out = call(ops[nm])
